@@ -246,12 +246,12 @@ class SchemaGen:
             return self.named(depth, ns)
         if k == 5:
             r = self.ref(ns)
-            return r[0] if r is not None else self.prim()
+            return r[0] if r is not None else self.prim(ns=ns)
         r = self.recursive_ref(ns)
         if r is None:
-            return self.prim()
+            return self.prim(ns=ns)
         if in_union and isinstance(r, list):
-            return self.prim()
+            return self.prim(ns=ns)
         return r
 
     # -- defaults -------------------------------------------------------------------
